@@ -1271,6 +1271,28 @@ fn write_workload(v: Version, maxbuf: usize, fail_at: &[u64]) -> (u64, Vec<Strin
             }
         }
     }
+    // a sibling tree in which the removed entry has two children and its in-order predecessor
+    // is not its direct left sibling (and has a left sibling itself): a removal that fails
+    // half-way must leave lookups, listings and the retried removal working
+    let _ = retry(&mut || comp.create_storage("/t"));
+    for n in ["MM", "DD", "TT", "HH", "FF", "GG"] {
+        let p = format!("/t/{}", n);
+        let _ = retry(&mut || comp.create_storage(&p));
+    }
+    for victim in ["MM", "HH"] {
+        let p = format!("/t/{}", victim);
+        let _ = retry(&mut || comp.remove_storage(&p));
+        let mut present = 0;
+        for n in ["AA", "DD", "EE", "FF", "GG", "HH", "II", "MM", "NN", "TT", "UU"] {
+            if comp.exists(format!("/t/{}", n)) {
+                present += 1;
+            }
+        }
+        let listed = comp.read_storage("/t").map(|i| i.count()).unwrap_or(0);
+        if listed != present && comp.exists("/t") {
+            bad.push(format!("after removing {}: read_storage(/t) lists {} entries but {} of the names are found", p, listed, present));
+        }
+    }
     // structural operations after the streams are closed
     let _ = comp.create_storage_all("/x/y/z");
     let _ = comp.remove_stream("/d/b");
@@ -1285,6 +1307,8 @@ fn write_workload(v: Version, maxbuf: usize, fail_at: &[u64]) -> (u64, Vec<Strin
 pub fn writefaults(seed: u64, pairs: usize, shard: u64, nshards: u64) -> Report {
     let mut rep = Report::new();
     let mut rng = Rng::new(seed);
+    // every hung run leaves a spinning thread behind and costs 20 s: three are proof enough
+    let hangs = std::cell::Cell::new(0u32);
     for v in [Version::V3, Version::V4] {
         for &maxbuf in &[1024usize, 4096] {
             let (n, bad0) = write_workload(v, maxbuf, &[]);
@@ -1308,18 +1332,23 @@ pub fn writefaults(seed: u64, pairs: usize, shard: u64, nshards: u64) -> Report 
                         }
                     }
                     Ok(Err(())) => rep.fail(format!("writefaults {:?} maxbuf={} fault at raw call(s) {:?}: PANIC", v, maxbuf, ks)),
-                    Err(_) => rep.fail(format!("writefaults {:?} maxbuf={} fault at raw call(s) {:?}: TIMEOUT (hang)", v, maxbuf, ks)),
+                    Err(_) => {
+                        hangs.set(hangs.get() + 1);
+                        rep.fail(format!("writefaults {:?} maxbuf={} fault at raw call(s) {:?}: TIMEOUT (a call of the workload did not return within 20 s: hang)", v, maxbuf, ks))
+                    }
                 }
             };
             for k in 0..n {
-                if k % nshards == shard {
+                if k % nshards == shard && hangs.get() < 3 {
                     run(vec![k], &mut rep);
                 }
             }
             for _ in 0..pairs {
                 let a = rng.below(n);
                 let b2 = rng.below(n);
-                run(vec![a, b2], &mut rep);
+                if hangs.get() < 3 {
+                    run(vec![a, b2], &mut rep);
+                }
             }
         }
     }
@@ -1627,7 +1656,127 @@ pub fn meta_clock(_seed: u64, count: usize) -> Report {
         }
     }
     rep.samples.push("create_storage / touch bracketed by SystemTime::now() with the clock hook off".into());
+    meta_faults(&mut rep);
     rep
+}
+
+/// C17 "at any point of a history": a metadata setter whose directory-entry write fails
+/// half-way, followed by successful setters.  Whatever the LAST setter that returned Ok stored
+/// is what lookups report and what the reopened bytes hold.
+fn meta_faults(rep: &mut Report) {
+    let t0 = web_time::SystemTime::UNIX_EPOCH + std::time::Duration::from_secs(1_000_000_000);
+    let t1 = web_time::SystemTime::UNIX_EPOCH + std::time::Duration::from_secs(1_500_000_000);
+    let ca = uuid::Uuid::from_u128(0x1111_2222_3333_4444_5555_6666_7777_8888);
+    let cb = uuid::Uuid::from_u128(0xAAAA_BBBB_CCCC_DDDD_EEEE_FFFF_0123_4567);
+    // (label, path, apply(value index 0 = old / 1 = new), read back)
+    type Setter = fn(&mut CompoundFile<SharedBuf>, &str, usize) -> std::io::Result<()>;
+    type Getter = fn(&cfb::Entry) -> String;
+    let t = (t0, t1, ca, cb);
+    let _ = t;
+    fn set_clsid(c: &mut CompoundFile<SharedBuf>, p: &str, i: usize) -> std::io::Result<()> {
+        c.set_storage_clsid(p, uuid::Uuid::from_u128(if i == 0 { 0x1111_2222_3333_4444_5555_6666_7777_8888 } else { 0xAAAA_BBBB_CCCC_DDDD_EEEE_FFFF_0123_4567 }))
+    }
+    fn set_bits(c: &mut CompoundFile<SharedBuf>, p: &str, i: usize) -> std::io::Result<()> {
+        c.set_state_bits(p, if i == 0 { 0x0102_0304 } else { 0xF1F2_F3F4 })
+    }
+    fn set_ct(c: &mut CompoundFile<SharedBuf>, p: &str, i: usize) -> std::io::Result<()> {
+        c.set_created_time(p, web_time::SystemTime::UNIX_EPOCH + std::time::Duration::from_secs(if i == 0 { 1_000_000_000 } else { 1_500_000_000 }))
+    }
+    fn set_mt(c: &mut CompoundFile<SharedBuf>, p: &str, i: usize) -> std::io::Result<()> {
+        c.set_modified_time(p, web_time::SystemTime::UNIX_EPOCH + std::time::Duration::from_secs(if i == 0 { 1_100_000_000 } else { 1_600_000_000 }))
+    }
+    fn get_clsid(e: &cfb::Entry) -> String { format!("{:032x}", e.clsid().as_u128()) }
+    fn get_bits(e: &cfb::Entry) -> String { format!("{:08x}", e.state_bits()) }
+    fn get_ct(e: &cfb::Entry) -> String { format!("{:?}", e.created()) }
+    fn get_mt(e: &cfb::Entry) -> String { format!("{:?}", e.modified()) }
+    let setters: Vec<(&str, &str, Setter, Getter)> = vec![
+        ("set_storage_clsid on a storage", "/d", set_clsid, get_clsid),
+        ("set_storage_clsid on the root", "/", set_clsid, get_clsid),
+        ("set_state_bits on a storage", "/d", set_bits, get_bits),
+        ("set_state_bits on a stream", "/d/s", set_bits, get_bits),
+        ("set_state_bits on the root", "/", set_bits, get_bits),
+        ("set_created_time on a storage", "/d", set_ct, get_ct),
+        ("set_modified_time on a storage", "/d", set_mt, get_mt),
+    ];
+    for v in [Version::V3, Version::V4] {
+        for (label, path, set, get) in setters.iter() {
+            // follow-ups after the faulty call: re-set the old value, retry the new value, or both
+            for follow in [&[0usize][..], &[1][..], &[0, 1][..], &[1, 0][..]] {
+                let mut k = 0u64;
+                loop {
+                    let (buf, mut c) = fresh(v, 4096);
+                    c.create_storage("/d").unwrap();
+                    c.create_stream("/d/s").unwrap().write_all(&[5u8; 300]).unwrap();
+                    c.create_storage("/e").unwrap();
+                    set(&mut c, path, 0).unwrap();
+                    c.flush().unwrap();
+                    let mut expected = get(&c.entry(path).unwrap());
+                    {
+                        let mut ctl = buf.ctl.lock().unwrap();
+                        ctl.fail_kinds = [false, true, true, true];
+                        ctl.seq = 0;
+                        ctl.fail_at = vec![k];
+                        ctl.injected = 0;
+                    }
+                    let r1 = set(&mut c, path, 1);
+                    let injected = buf.ctl.lock().unwrap().injected;
+                    {
+                        let mut ctl = buf.ctl.lock().unwrap();
+                        ctl.fail_kinds = [false; 4];
+                        ctl.fail_at.clear();
+                    }
+                    let mut history = format!("{:?} {} (new value) with raw write/seek call {} failing -> {}", v, label, k, if r1.is_ok() { "Ok" } else { "Err" });
+                    let mut last_ok: Option<String> = None;
+                    if r1.is_ok() {
+                        last_ok = Some(get(&c.entry(path).unwrap()));
+                    }
+                    for &i in follow.iter() {
+                        let r = set(&mut c, path, i);
+                        history.push_str(&format!("; then the setter with the {} value -> {}", if i == 0 { "old" } else { "new" }, if r.is_ok() { "Ok" } else { "Err" }));
+                        if r.is_ok() {
+                            last_ok = Some(get(&c.entry(path).unwrap()));
+                        }
+                    }
+                    rep.evaluations += 1;
+                    rep.distinct.insert(format!("{:?}-{}-{:?}-{}", v, label, follow, k));
+                    if let Some(val) = last_ok {
+                        expected = val;
+                        let _ = c.flush();
+                        let live = get(&c.entry(path).unwrap());
+                        if live != expected {
+                            rep.fail(format!("metafaults: {}: the live object reports {} instead of {}", history, live, expected));
+                        }
+                        drop(c);
+                        for strict in [true, false] {
+                            let b2 = SharedBuf::new(buf.snapshot());
+                            let opened = if strict { CompoundFile::open_strict(b2) } else { CompoundFile::open(b2) };
+                            match opened {
+                                Ok(c2) => match c2.entry(path) {
+                                    Ok(e) => {
+                                        let got = get(&e);
+                                        if got != expected {
+                                            rep.fail(format!("metafaults: {}: after reopening ({}) {} reports {} instead of {}", history, if strict { "strict" } else { "permissive" }, path, got, expected));
+                                        }
+                                    }
+                                    Err(e) => rep.fail(format!("metafaults: {}: after reopening, entry({}) fails: {}", history, path, e)),
+                                },
+                                Err(e) => {
+                                    if !strict {
+                                        rep.fail(format!("metafaults: {}: the bytes no longer reopen: {}", history, e));
+                                    }
+                                }
+                            }
+                        }
+                    }
+                    if injected == 0 || k > 200 {
+                        break;
+                    }
+                    k += 1;
+                }
+            }
+        }
+    }
+    rep.samples.push("metafaults: every setter x every raw write/seek position failing once, then old / new / old+new / new+old follow-ups; the last Ok setter decides what lookups and the reopened bytes show".into());
 }
 
 // ---------------------------------------------------------------------------
